@@ -96,10 +96,11 @@ Theorem C37_source_shape : exists fix1 fix2 : bool,
 Proof. exact shape_matches. Qed.
 Print Assumptions C37_source_shape.
 
-(* ... and every clause id the transcription of the code can report names one of those error sites. *)
-Theorem C37_clauses_are_sites : forall c : cfg,
-  forallb (fun cl => existsb (String.eqb (clause_name cl))
-                       (Verif.Model.ConfigShape.error_ids (Verif.Model.ConfigShape.expected_sites false false)))
-          (impl_validate c) = true.
+(* ... and every clause id the transcription of the code can report names one of those error sites
+   (known cl := the name of cl occurs among the ids of the "e" sites of expected_sites false false; both
+   definitions are printed below). *)
+Theorem C37_clauses_are_sites : forall c : cfg, forallb known (impl_validate c) = true.
 Proof. exact impl_clauses_are_sites. Qed.
 Print Assumptions C37_clauses_are_sites.
+Print known.
+Print site_ids.
